@@ -220,6 +220,21 @@ func (fx *FnExec) frameEnv(st *State, fr *frame) *evalEnv {
 			env.vars[name] = cval{t: st.vals[v], typ: v.Type(), sort: fx.sortOf(v.Type()), lv: st.lvs[v]}
 		}
 	}
+	// names recorded on the path (phis keep their source name, including the
+	// synthetic rangeindex) that nothing above has bound
+	pref := fmt.Sprintf("%p|", fr.fn)
+	for k, v := range st.names {
+		if !strings.HasPrefix(k, pref) {
+			continue
+		}
+		name := k[len(pref):]
+		if _, dup := env.vars[name]; dup {
+			continue
+		}
+		if t, ok := st.vals[v]; ok {
+			env.vars[name] = cval{t: t, typ: v.Type(), sort: fx.sortOf(v.Type()), lv: st.lvs[v]}
+		}
+	}
 	for _, fv := range fr.fn.FreeVars {
 		t, ok := st.vals[fv]
 		if !ok {
